@@ -12,7 +12,7 @@ EXTENDS HG, Json
 
 CONSTANTS NN,        \* nodes are 0..NN-1
           EdgeIds,   \* explicit edge ids offered to the calls
-          MaxUid, MaxEdges, MaxAttr,
+          MaxUid, MaxEdges, MaxAttr, MaxLevel,
           Rich,      \* TRUE: the large alphabet (thorough tier)
           Emit       \* TRUE: print alphabet and states as JSON
 
@@ -104,7 +104,7 @@ SpecE == Init /\ [][NextE]_vars
 AttrCount(S) == SumSet(LAMBDA n : Cardinality(DOMAIN S.nattr[n]), DOMAIN S.nattr)
                 + SumSet(LAMBDA e : Cardinality(DOMAIN S.eattr[e]), DOMAIN S.eattr)
                 + Cardinality(DOMAIN S.gattr)
-Bounded == st.uid <= MaxUid /\ AttrCount(st) <= MaxAttr /\ Len(st.edges) <= MaxEdges
+Bounded == TLCGet("level") <= MaxLevel /\ st.uid <= MaxUid /\ AttrCount(st) <= MaxAttr /\ Len(st.edges) <= MaxEdges
            /\ \A e \in EdgeSet(st) : e < 2000000
 
 View == st
